@@ -343,7 +343,8 @@ Record bsp_in := {
   b_opt_delay : option Z; b_opt_export : option Z }.   (* option durations in ns *)
 (** Batch log record processor: OTEL_BLRP_MAX_QUEUE_SIZE / _MAX_EXPORT_BATCH_SIZE and the options. *)
 Record blrp_in := {
-  r_env_queue : bytes; r_env_batch : bytes; r_opt_queue : option Z; r_opt_batch : option Z }.
+  r_env_queue : bytes; r_env_batch : bytes; r_opt_queue : option Z; r_opt_batch : option Z;
+  r_env_export : bytes; r_opt_export : option Z }.   (* OTEL_BLRP_EXPORT_TIMEOUT (ms), WithExportTimeout (ns) *)
 (** Span limits. *)
 Record limits := {
   lim_attr_len : Z; lim_attr_cnt : Z; lim_event_cnt : Z; lim_link_cnt : Z;
